@@ -20,6 +20,7 @@ func main() {
 		panic(err)
 	}
 	n := 0
+	var lastRecv ast.Expr
 	lockCall := func(e ast.Expr) (name, op string, ok bool) {
 		c, isCall := e.(*ast.CallExpr)
 		if !isCall || len(c.Args) != 0 {
@@ -44,12 +45,15 @@ func main() {
 		if i := strings.Index(s, "."); i >= 0 {
 			s = s[i+1:]
 		}
+		lastRecv = sel.X
 		return prefix + "." + s, sel.Sel.Name, true
 	}
+	// the third argument is the address of the mutex (its instance)
 	mk := func(fn, name, op string) ast.Stmt {
 		return &ast.ExprStmt{X: &ast.CallExpr{
-			Fun:  &ast.SelectorExpr{X: ast.NewIdent("vtrace"), Sel: ast.NewIdent(fn)},
-			Args: []ast.Expr{&ast.BasicLit{Kind: token.STRING, Value: fmt.Sprintf("%q", name)}, &ast.BasicLit{Kind: token.STRING, Value: fmt.Sprintf("%q", op)}},
+			Fun: &ast.SelectorExpr{X: ast.NewIdent("vtrace"), Sel: ast.NewIdent(fn)},
+			Args: []ast.Expr{&ast.BasicLit{Kind: token.STRING, Value: fmt.Sprintf("%q", name)}, &ast.BasicLit{Kind: token.STRING, Value: fmt.Sprintf("%q", op)},
+				&ast.UnaryExpr{Op: token.AND, X: lastRecv}},
 		}}
 	}
 	generated := map[*ast.BlockStmt]bool{}
